@@ -26,6 +26,7 @@ type Profile struct {
 	W         map[string]int // op weights
 	MaxWrite  uint64
 	BigOffset bool // offsets at indirection boundaries
+	Reclaim   bool // second phase deletes everything
 	Steer     map[string]bool
 }
 
@@ -40,6 +41,7 @@ type Gen struct {
 	maxfs        uint64
 	nmax         uint64
 	pend         *pending
+	deleting     bool
 	unstableFile *gobj // a file with acknowledged unstable data not yet committed
 }
 
@@ -183,8 +185,31 @@ func (g *Gen) length() uint64 {
 
 func (g *Gen) id() int { g.next++; return g.next - 1 }
 
+// nextDelete removes a leaf (a file, a symlink or an empty directory).
+func (g *Gen) nextDelete() (Op, bool) {
+	for _, o := range g.live {
+		if o == g.root || len(o.kids) > 0 {
+			continue
+		}
+		proc := "remove"
+		if o.kind == 2 {
+			proc = "rmdir"
+		}
+		op := Op{Id: g.id(), Proc: proc, H: o.parent.sym, Name: o.name}
+		g.pend = &pending{parent: o.parent, target: o, op: op}
+		return op, true
+	}
+	return Op{}, false
+}
+
 // Next produces the next operation.
 func (g *Gen) Next() Op {
+	if g.deleting {
+		if o, ok := g.nextDelete(); ok {
+			return o
+		}
+		return Op{Id: g.id(), Proc: "readdirplus", H: "root", Dircount: 1 << 20, Maxcount: 1 << 20}
+	}
 	for tries := 0; tries < 50; tries++ {
 		o, ok := g.try(g.weighted())
 		if ok {
@@ -228,6 +253,18 @@ func (g *Gen) try(k string) (Op, bool) {
 		}
 		n := g.length()
 		o = Op{Proc: "write", H: f.sym, Off: g.offset(f), Cnt: n, Stable: uint32(g.rng.Intn(3)),
+			Data: DataSpec{Pat: true, Len: n, Seed: uint64(g.rng.Intn(250))}}
+		g.pend = &pending{target: f}
+	case "bigwrite":
+		f := g.pick(1)
+		if f == nil {
+			return o, false
+		}
+		n := uint64(200+g.rng.Intn(290)) * 4096
+		if n > g.wtmax {
+			n = g.wtmax
+		}
+		o = Op{Proc: "write", H: f.sym, Off: f.size / 4096 * 4096, Cnt: n, Stable: uint32(g.rng.Intn(3)),
 			Data: DataSpec{Pat: true, Len: n, Seed: uint64(g.rng.Intn(250))}}
 		g.pend = &pending{target: f}
 	case "read":
